@@ -58,6 +58,10 @@ fn add_path_viol(rec: &mut Rec, rep: &pathmon::PathReport, ctx: &str) {
 
 pub fn work(prop: &str, tier: u8, seed: u64, idx: usize) -> Rec {
     let mut rec = Rec::new(idx);
+    if prop == "C13" && idx < 4 {
+        c13_dtor(&mut rec, idx);
+        return rec;
+    }
     let p = prog_for(prop, tier, seed, idx);
     judge(prop, &p, &mut rec, tier, seed, idx);
     rec
@@ -569,4 +573,106 @@ fn c13(p: &Prog, rec: &mut Rec, tier: u8, seed: u64, idx: usize) {
     let _ = std::fs::remove_file(&file);
     rec.nontrivial = true;
     rec.extra = json!({"family": "path", "iterations": n, "stop_resume_pairs": stops});
+}
+
+// ---------------------------------------------------------------------------------------------
+// C13 (determinism), destructors of thread-locals / lazy statics that perform loom operations
+// ---------------------------------------------------------------------------------------------
+
+mod dtor {
+    use std::sync::atomic::Ordering::SeqCst;
+    use std::sync::{Arc, Mutex};
+
+    pub static ORDER: Mutex<Vec<u8>> = Mutex::new(Vec::new());
+    /// the iteration's shared loom atomic (lazy statics are already gone when the main thread's thread-locals are dropped)
+    static SHARED: Mutex<Option<Arc<loom::sync::atomic::AtomicUsize>>> = Mutex::new(None);
+    pub struct D(pub u8);
+    impl Drop for D {
+        fn drop(&mut self) {
+            // a modelled operation inside the destructor: the order of destructors is part of the execution
+            let a = SHARED.lock().unwrap().clone();
+            if let Some(a) = a {
+                a.fetch_add(1, SeqCst);
+            }
+            ORDER.lock().unwrap().push(self.0);
+        }
+    }
+    loom::thread_local! {
+        static A: D = D(1);
+        static B: D = D(2);
+        static C: D = D(3);
+        static E: D = D(4);
+    }
+    /// per-iteration destructor orders of a 2-thread model touching four thread-locals in a given order
+    pub fn run(perm: usize) -> (Vec<Vec<u8>>, Option<String>) {
+        let seq: Arc<Mutex<Vec<Vec<u8>>>> = Arc::new(Mutex::new(vec![]));
+        let s2 = seq.clone();
+        ORDER.lock().unwrap().clear();
+        loom::verif::set_iteration_hook(Some(Box::new(move |_| {
+            let o = std::mem::take(&mut *ORDER.lock().unwrap());
+            s2.lock().unwrap().push(o);
+        })));
+        let r = std::panic::catch_unwind(move || {
+            loom::model::Builder::new().check(move || {
+                *SHARED.lock().unwrap() = Some(Arc::new(loom::sync::atomic::AtomicUsize::new(0)));
+                let touch = move |k: usize| match (k + perm) % 4 {
+                    0 => A.with(|_| ()),
+                    1 => B.with(|_| ()),
+                    2 => C.with(|_| ()),
+                    _ => E.with(|_| ()),
+                };
+                let h = loom::thread::spawn(move || {
+                    for k in 0..4 {
+                        touch(k);
+                    }
+                });
+                for k in (0..4).rev() {
+                    touch(k);
+                }
+                h.join().unwrap();
+            });
+        });
+        loom::verif::set_iteration_hook(None);
+        let v = seq.lock().unwrap().clone();
+        (v, r.err().map(crate::common::panic_msg))
+    }
+}
+
+/// `lv child-dtor <perm>`
+pub fn child_dtor(perm: usize) -> i32 {
+    let (v, p) = dtor::run(perm);
+    println!("{}", serde_json::to_string(&(v, p)).unwrap());
+    0
+}
+
+pub fn c13_dtor(rec: &mut Rec, perm: usize) {
+    rec.prog = format!("two threads touch four thread-locals (rotation {}) whose destructors perform a loom operation", perm);
+    rec.hash = fnv(&rec.prog);
+    rec.extra = json!({"family": "path"});
+    let (a, pa) = dtor::run(perm);
+    let (b, pb) = dtor::run(perm);
+    rec.runs += 2;
+    rec.iters += (a.len() + b.len()) as u64;
+    if a != b || pa != pb {
+        let i = (0..a.len().min(b.len())).find(|&i| a[i] != b[i]).unwrap_or(0);
+        rec.v("nondeterministic", "", format!("two runs in one process: destructor orders differ, e.g. iteration {}: {:?} vs {:?} ({} / {} iterations)", i, a.get(i), b.get(i), a.len(), b.len()));
+    }
+    let exe = std::env::current_exe().unwrap();
+    let mut outs = vec![];
+    for _ in 0..3 {
+        if let Ok(o) = std::process::Command::new(&exe).args(["child-dtor", &perm.to_string()]).stderr(std::process::Stdio::null()).output() {
+            if let Ok(v) = serde_json::from_slice::<(Vec<Vec<u8>>, Option<String>)>(&o.stdout) {
+                rec.runs += 1;
+                rec.iters += v.0.len() as u64;
+                outs.push(v);
+            }
+        }
+    }
+    if outs.len() < 3 {
+        rec.v("harness_error", "", "child-dtor failed".to_string());
+    } else if outs.iter().any(|o| *o != outs[0]) || outs[0].0 != a {
+        rec.v("nondeterministic", "", format!("fresh processes disagree about the order in which thread-local destructors run: first iterations {:?} / {:?} / {:?} / in-process {:?}", outs[0].0.first(), outs[1].0.first(), outs[2].0.first(), a.first()));
+    }
+    rec.nontrivial = a.len() >= 1;
+    rec.extra = json!({"family": "path", "iterations": a.len(), "first_iteration_destructor_order": a.first()});
 }
